@@ -255,8 +255,14 @@ def guards(ctx, f_init, f_solve):
            consequence="a seed solution computed on a device with an extra hole or terminal is accepted")
     # polygon / device definitions
     fp = repo.cls("tdgl.device.polygon", "Polygon").methods["points"]
-    txts = [norm(gs[-1][0].test) for n, gs in raise_guards(fp) if gs]
-    ok = any("interiors" in t for t in txts) and any("is_valid" in t for t in txts)
+    # the setter followed for a polygon with interiors, for an invalid one and for a good one (pvs/smallstep.py)
+    from .c18 import follow_points_setter
+    txts = []
+    ok = True
+    for interiors, valid, want in ((True, True, "raise"), (False, False, "raise"), (False, True, "return")):
+        k_, v_, stored_ = follow_points_setter(fp, "array", interiors, valid)
+        txts.append(f"interiors={interiors} valid={valid}: {k_}")
+        ok = ok and k_ == want and (want == "return" or not stored_)
     ctx.ob("R19.3", "invalid / multiply-connected polygons are rejected by the points setter", ok, detail=txts, where=fp.fq,
            construct="polygon validity guards", message=f"polygon guards: {txts}", consequence="self-intersecting outlines reach the mesher")
     fd = repo.func("tdgl.device.device", "Device.__init__")
@@ -332,44 +338,62 @@ def pyeval(e: ast.expr, env: Dict[str, object]):
     raise KeyError(norm(e))
 
 
+def follow_validate(repo, overrides: Dict[str, object]):
+    """SolverOptions.validate() followed (pvs/smallstep.py) on an options object whose fields have their declared defaults except
+    for `overrides`: ("return", None) or ("raise", exception)."""
+    from ..smallstep import Machine, Opaque as SO, module_constants
+    fv = repo.func(OPTIONS, "SolverOptions.validate")
+    C = repo.cls(OPTIONS, "SolverOptions")
+    m0 = Machine(dict(module_constants(fv.module.tree)), lambda t: NotImplemented, lambda *a: NotImplemented)
+    fields = {}
+    for st in C.node.body:
+        if isinstance(st, ast.AnnAssign) and isinstance(st.target, ast.Name):
+            fields[st.target.id] = m0.ev(st.value) if st.value is not None else 10.0          # solve_time has no default
+    fields.update(overrides)
+
+    def attrs(text):
+        if text.startswith("self.") and text.count(".") == 1 and text[5:] in fields:
+            return fields[text[5:]]
+        return NotImplemented
+
+    def call(m, node, name, args, kwargs):
+        if name == "isinstance" and len(args) == 2:
+            v = args[0]
+            if isinstance(v, SO):
+                return False            # an enum member, not a string
+            c = args[1]
+            ctext = c.text if isinstance(c, SO) else ""
+            if ctext in ("str", "int", "float", "bool", "complex") and v is not None:
+                return isinstance(v, {"str": str, "int": int, "float": float, "bool": bool, "complex": complex}[ctext])
+        return NotImplemented
+
+    def undecided(text):
+        # which sparse solver is selected and which optional packages are installed is not what these scenarios are about
+        if "sparse_solver" in text or "SparseSolver" in text:
+            return False
+        return None
+    mach = Machine({"self": SO("self"), **module_constants(fv.module.tree)}, attrs, call, fuel=16, undecided=undecided)
+    return mach.run_function(fv.node)
+
+
 def option_ranges(ctx):
+    """R19.3: validate() is followed for every sample of RANGES with all other options at their defaults: samples inside the
+    documented range must pass, samples outside (end points included where the range is open) must be rejected."""
     repo = ctx.repo
     fv = repo.func(OPTIONS, "SolverOptions.validate")
-    rg = [(n, gs) for n, gs in raise_guards(fv) if gs and not any(isinstance(x, ast.Try) for x in ast.walk(gs[0][0]))]
-    from ..dataflow import expand
-    # the rejection condition of a raise is the conjunction of its guards, read through temporaries (`m = self.x; if not 0 < m < 1`)
-    conds = []
-    for n, gs in rg:
-        if all(isinstance(g, ast.If) for g, _ in gs):
-            conds.append([(expand(fv.node, g.test), br) for g, br in gs])
+    base = follow_validate(repo, {})
+    if base[0] != "return":
+        raise AnalysisError(f"SolverOptions.validate rejects the default options in the model ({base[1]})")
     for field, (acc, rej) in RANGES.items():
-        rel = [c for c in conds if any(isinstance(x, ast.Attribute) and x.attr == field for t, _ in c for x in ast.walk(t))]
-        ok = len(rel) == 1
-        det = {"guards": [[norm(t) for t, _ in c] for c in rel]}
-        if not rel:
-            mentions = [nn for nn in own_nodes(fv.node) if isinstance(nn, ast.Attribute) and nn.attr == field]
-            if mentions:
-                raise AnalysisError(f"SolverOptions.validate mentions `{field}` but no raise is guarded by a test on it that this rule can read")
-        if ok:
-            def rejects(v, c=rel[0]):
-                return all(bool(pyeval(t, {field: v})) == (br == "true") for t, br in c)
-            bad_acc, bad_rej = [], []
-            for v in acc:
-                try:
-                    r = rejects(v)
-                except Exception as e:
-                    raise AnalysisError(f"cannot evaluate the guard of {field} for {field}={v!r}: {e}")
-                if r:
-                    bad_acc.append(v)
-            for v in rej:
-                if not rejects(v):
-                    bad_rej.append(v)
-            det.update({"wrongly_rejected": [repr(x) for x in bad_acc], "wrongly_accepted": [repr(x) for x in bad_rej]})
-            ok = not bad_acc and not bad_rej
+        bad_acc = [v for v in acc if follow_validate(repo, {field: v})[0] != "return"]
+        bad_rej = [v for v in rej if follow_validate(repo, {field: v})[0] != "raise"]
+        det = {"accepted_samples": [repr(x) for x in acc], "rejected_samples": [repr(x) for x in rej],
+               "wrongly_rejected": [repr(x) for x in bad_acc], "wrongly_accepted": [repr(x) for x in bad_rej]}
+        ok = not bad_acc and not bad_rej
         ctx.ob("R19.3", f"SolverOptions.{field}: documented range enforced at its end points", ok, detail=det, where=fv.fq,
                construct=f"range guard of {field}", loc=loc(fv, fv.node), message=f"range guard of {field}: {det}",
                consequence=f"an out-of-range {field} is accepted (or a legal boundary value rejected)")
-    tests = [c[0] for c in conds if len(c) == 1]
-    rel = [(t, br) for t, br in tests if norm(t).replace(" ", "") in ("self.dt_init>self.dt_max", "self.dt_max<self.dt_init")]
-    ctx.ob("R19.3", "dt_init <= dt_max enforced (equality accepted)", len(rel) == 1, detail=[norm(t) for t, _ in tests][:3], where=fv.fq,
-           construct="dt_init <= dt_max", message="no dt_init > dt_max guard", consequence="an initial step above the cap is accepted")
+    outcomes = {(a_, b_): follow_validate(repo, {"dt_init": a_, "dt_max": b_})[0] for a_, b_ in ((1e-3, 1e-1), (1e-1, 1e-1), (0.2, 1e-1))}
+    ok = outcomes == {(1e-3, 1e-1): "return", (1e-1, 1e-1): "return", (0.2, 1e-1): "raise"}
+    ctx.ob("R19.3", "dt_init <= dt_max enforced (equality accepted)", ok, detail={f"dt_init={k[0]} dt_max={k[1]}": v for k, v in outcomes.items()}, where=fv.fq,
+           construct="dt_init <= dt_max", message=f"dt_init / dt_max samples: {outcomes}", consequence="an initial step above the cap is accepted")
